@@ -535,8 +535,10 @@ func TestVerifC06Replay(t *testing.T) {
 func c06ReplayFile(t *testing.T, path, dir string) {
 	var rf struct {
 		Replay struct {
-			Case c06Case `json:"case"`
-			Conc c06Conc `json:"conc"`
+			Kind  string        `json:"kind"`
+			Multi *c06MultiCase `json:"multi"`
+			Case  c06Case       `json:"case"`
+			Conc  c06Conc       `json:"conc"`
 		} `json:"replay"`
 	}
 	raw, err := os.ReadFile(path)
@@ -552,6 +554,16 @@ func c06ReplayFile(t *testing.T, path, dir string) {
 		t.Fatal(err)
 	}
 	defer rig.close()
+	if rf.Replay.Kind == "multi" && rf.Replay.Multi != nil {
+		for i := 0; i < 5; i++ {
+			o := rig.runMulti(rf.Replay.Multi, rng)
+			for _, l := range o.Table {
+				fmt.Println(l)
+			}
+			fmt.Printf("REPLAY-RESULT key=%q what=%q\n", o.Key, o.What)
+		}
+		return
+	}
 	// the ephemeral key, nonce and extension order are drawn afresh each time: show a few
 	for i := 0; i < 5; i++ {
 		c := rf.Replay.Conc
